@@ -25,6 +25,9 @@ def step (line : String) : String :=
   | ["msg", k, n] =>
     if (k = "shmsg" ∨ k = "ctrlreq" ∨ k = "ctrlresp" ∨ k = "shopen" ∨ k = "fupmeta" ∨ k = "fdownmeta")
         ∧ n.toNat?.isSome then "ok big=0 parse=ok" else "bad-op"
+  | ["conc", n, cp] =>
+    -- seal+send of a message is one atomic step (C07_shell_seal_send_atomic): wire order = nonce order
+    if n.toNat?.isSome ∧ cp.toNat?.isSome then "ok rejected=0 stdout=equal stderr=equal" else "bad-op"
   | "nf" :: p :: sizes =>
     -- a tunnel delivers what was written whether or not a FIN follows
     if (p = "exit" ∨ p = "fwd" ∨ p = "mesh" ∨ p = "shin") ∧ !sizes.isEmpty then
@@ -71,6 +74,10 @@ def spec (line : String) (implOut : String) : String :=
       else if p ≠ "ok" then "fail wire-not-frames"
       else "ok"
     | _, _ => "fail inconsistent-report"
+  | ["conc", _, _] =>
+    if implOut == "ok rejected=0 stdout=equal stderr=equal" then "ok"
+    else if field "rejected" toks != some "0" then "fail shell-frames-out-of-nonce-order"
+    else "fail shell-concurrent-output-lost"
   | "nf" :: _ :: _ =>
     if implOut.startsWith "ok delivered" then (if implOut == step line then "ok" else "fail delivered-count-differs")
     else if implOut.startsWith "ok pending" then "fail undelivered-without-fin"
